@@ -10,6 +10,13 @@ use std::path::{Path, PathBuf};
 use std::process::{Command, Stdio};
 use std::time::{Duration, Instant};
 
+/// Runs of the real program get one CPU each, handed out round robin (which one has no influence on
+/// what the program does; all of them on the first CPU made sixteen jobs wait for one core).
+fn next_cpu() -> usize {
+    static NEXT: std::sync::atomic::AtomicUsize = std::sync::atomic::AtomicUsize::new(0);
+    NEXT.fetch_add(1, std::sync::atomic::Ordering::Relaxed)
+}
+
 #[derive(Serialize, Deserialize, Clone, Debug, PartialEq, Eq)]
 #[serde(tag = "exit", rename_all = "snake_case")]
 pub enum Exit {
@@ -340,7 +347,7 @@ impl Launcher {
             }
             self.seed_randomness(&mut cmd, rand);
             cmd.stdout(Stdio::from(slave));
-            match self.spawn_with_affinity(&mut cmd, 1, 0) {
+            match self.spawn_with_affinity(&mut cmd, 1, next_cpu()) {
                 Ok(c) => c,
                 Err(e) => return ChildOut { exit: Exit::SpawnFailed { why: e.to_string() }, events: vec![], stdout: String::new(), stderr: String::new() },
             }
@@ -373,7 +380,7 @@ impl Launcher {
             }
         }
         self.seed_randomness(&mut cmd, rand);
-        let child = match self.spawn_with_affinity(&mut cmd, 1, 0) {
+        let child = match self.spawn_with_affinity(&mut cmd, 1, next_cpu()) {
             Ok(c) => c,
             Err(e) => return ChildOut { exit: Exit::SpawnFailed { why: e.to_string() }, events: vec![], stdout: String::new(), stderr: String::new() },
         };
